@@ -50,7 +50,6 @@ import (
 	"math/big"
 	"os"
 	"regexp"
-	"sort"
 	"strings"
 )
 
@@ -384,9 +383,9 @@ func (m *wgPsi) register(cond ast.Expr, block []ast.Stmt, n ast.Node, rest func(
 		s.fail(n, "the write callback assigns a %s to a variable of type %s", ft.coq(), accTy.coq())
 	}
 	m.cb = &wgCallback{acc: acc, accTy: accTy, fn: "(fun " + cname(acc) + " " + cname(bs) + " => " + fs + ")"}
-	s.t.env["cb_on_"] = tBool
+	s.t.bind("cb_on_", tBool, n.Pos())
 	s.declDepth["cb_on_"] = 0
-	s.t.env["cbitems_"] = tyGItems
+	s.t.bind("cbitems_", tyGItems, n.Pos())
 	s.declDepth["cbitems_"] = 0
 	return pre + "let cb_on_ := " + c + " in\n  let cbitems_ := (@nil gitem) in\n  " + rest(), true
 }
@@ -573,7 +572,7 @@ func (m *wgPsi) rangeStmt(st *ast.RangeStmt, rest []ast.Stmt, k func() string) s
 	s.depth++
 	elem := "_"
 	if vid != nil {
-		elem = cname(s.define(st, vid.Name, et))
+		elem = cname(s.define(vid, vid.Name, et))
 	}
 	s.depth++
 	bodyOuter, bodyDepth := s.envNames(), s.depth
@@ -591,7 +590,7 @@ func (m *wgPsi) rangeStmt(st *ast.RangeStmt, rest []ast.Stmt, k func() string) s
 			cvars = append(cvars, v)
 		}
 	}
-	sort.Strings(cvars)
+	s.t.sortDecl(cvars)
 	carried := map[string]bool{}
 	for _, v := range cvars {
 		ctys = append(ctys, saved.env[v].coq())
@@ -762,7 +761,7 @@ func psiwTrHook(t *tr, list []ast.Stmt, k func() string) (string, bool) {
 				if _, clash := t.env[id.Name]; clash {
 					t.fail(st, "%s is redeclared", id.Name)
 				}
-				t.env[id.Name] = rts[i]
+				t.bind(id.Name, rts[i], id.Pos())
 				pats = append(pats, cname(id.Name))
 			}
 			return "let '(" + strings.Join(pats, ", ") + ") := " + call + " in\n  " + t.stmts(list[1:], k), true
